@@ -137,6 +137,19 @@ class Module:
         deannotate(self.tree)
         canonical_imports(self.tree)
         augment(self.tree)
+        from .normalize import canonical_tests
+
+        from .normalize import canonical_operands
+
+        canonical_operands(self.tree)
+        canonical_tests(self.tree)
+        from .normalize import canonical_queue_calls, expand_ternary_assignments
+
+        canonical_queue_calls(self.tree)
+        from .normalize import canonical_dicts
+
+        canonical_dicts(self.tree)
+        expand_ternary_assignments(self.tree)
         if not os.environ.get('MPSA_NO_RENAME_TOLERANCE'):
             from .anchors import load_anchors as _la
             from .normalize import propagate_new_constants
@@ -177,6 +190,13 @@ class Module:
                     got_ = restore_local_names(fi_.node, ref_loc[q_])
                     if got_:
                         self.locals_restored.append((q_, got_))
+            ref_cmp = (_la2().get('__cmps__') or {}).get(self.rel)
+            if ref_cmp:
+                from .normalize import restore_orientation
+
+                for q_, fi_ in list(self.functions.items()):
+                    if not isinstance(fi_.parent, FuncInfo) and q_ in ref_cmp:
+                        self.mirrored = getattr(self, 'mirrored', 0) + restore_orientation(fi_.node, ref_cmp[q_])
         # calls of helpers that did not exist in the confirmed tree are read in place (extract-method tolerance)
         self.inlined: list = []
         if not os.environ.get('MPSA_NO_RENAME_TOLERANCE'):
